@@ -50,7 +50,7 @@ def replay_cases(ctx, key):
     return out
 
 
-REPLAY_KEYS = {"mw": "mw_cases", "mws": "mws_cases", "mr": "mr_cases", "mrs": "mrs_cases", "win": "win_cases", "read": "read_cases", "fc": "fc_cases", "hbq": "hbq_cases", "reg": "reg_cases", "mat": "mat_cases",
+REPLAY_KEYS = {"mw": "mw_cases", "mws": "mws_cases", "mr": "mr_cases", "mrs": "mrs_cases", "win": "win_cases", "read": "read_cases", "rp": "rp_cases", "fc": "fc_cases", "hbq": "hbq_cases", "reg": "reg_cases", "mat": "mat_cases",
                "wd": "wd_cases", "lb": "lb_cases"}
 
 
@@ -272,6 +272,149 @@ def run_reads(ctx):
         ctx.broken("correspondence", "read model (sctp_read over hb_filter) and SCTPConn.Read disagree on %d case(s); first: %s mx=%d"
                    % (len(mm), "server" if c["server"] else "client", c["mx"]),
                    {"read_cases": [js[i]], "observed": res[i]})
+
+
+# ------------------------------------------------------------------ (viii) real pair at the association's maximum message size
+RP_DIR = {0: "dialer-to-acceptor", 1: "acceptor-to-dialer"}
+RP_COQ_MAX_READS = 3000
+
+
+def gen_rp_cases(ctx):
+    """message-size sequences x read-size patterns, both relative to the REAL association's maximum message size
+    (resolved by the driver from the constructed objects), in both directions"""
+    rng = ctx.rng
+    if ctx.replay:
+        return replay_cases(ctx, "rp_cases")
+    seedc = itertools.count(1000 + rng.randrange(1000))
+
+    def m(n, rel=False):
+        return {"rel": rel, "n": n, "seed": next(seedc)}
+
+    def rs(n, rel=False):
+        return {"rel": rel, "n": n}
+    pats = {"1000": [rs(1000)], "max-1": [rs(-1, True)], "max": [rs(0, True)], "max+4464": [rs(4464, True)],
+            "mixed": [rs(1), rs(1000), rs(-1, True), rs(0, True), rs(4464, True), rs(7)]}
+    cases = []
+    for d in (0, 1):
+        for name, pat in pats.items():
+            cases.append({"dir": d, "msgs": [m(5), m(0, True), m(5)], "rsizes": pat})
+            cases.append({"dir": d, "msgs": [m(-1, True), m(0, True), m(1, True), m(7), m(0, True)], "rsizes": pat})
+        # one byte at a time through a maximal message
+        cases.append({"dir": d, "msgs": [m(3), m(0, True), m(2)], "rsizes": [rs(1)]})
+    nrand = 6 if ctx.tier == "quick" else 30
+    for _ in range(nrand):
+        msgs = []
+        for _ in range(rng.randrange(2, 6)):
+            k = rng.random()
+            if k < 0.35:
+                msgs.append(m(rng.randrange(1, 3000)))
+            elif k < 0.85:
+                msgs.append(m(rng.choice([-2, -1, 0, 0, 0, 1, 2]), True))
+            else:
+                msgs.append(m(-rng.randrange(3, 30000), True))
+        pat = [rng.choice([rs(rng.randrange(1, 5000)), rs(-1, True), rs(0, True), rs(rng.randrange(1, 9000), True),
+                           rs(-rng.randrange(2, 40000), True)]) for _ in range(rng.randrange(1, 4))]
+        cases.append({"dir": rng.randrange(2), "msgs": msgs, "rsizes": pat})
+    return cases
+
+
+def rp_oracle(c, r, datas):
+    """the property's words on a real pair: the reader obtains exactly the concatenation of everything Write reported
+    as written, and no error before the peer closes (the driver closes only after every written byte was read)"""
+    written = b"".join(d[:w["n"]] for d, w in zip(datas, r.get("writes") or []))
+    for i, w in enumerate(r.get("writes") or []):
+        if w["e"] == E_PANIC:
+            return ("panic", "Write panicked")
+        if w["n"] > len(datas[i]):
+            return ("write-overcount", "Write of %d bytes reported %d written" % (len(datas[i]), w["n"]))
+    got = 0
+    for k, x in enumerate(r.get("reads") or []):
+        d = bytes.fromhex(x["d"] or "")
+        if x["e"] == E_PANIC:
+            return ("panic", "Read panicked: %s" % x.get("err", ""))
+        if len(d) > x["size"]:
+            return ("overlong", "read %d returned %d bytes into a buffer of %d" % (k, len(d), x["size"]))
+        if written[got:got + len(d)] != d:
+            return ("lost-or-reordered" if got + len(d) <= len(written) else "extra-bytes",
+                    "read %d (buffer %d) at stream offset %d: expected %s... got %s... (%d bytes)"
+                    % (k, x["size"], got, written[got:got + len(d)].hex()[:24], d.hex()[:24], len(d)))
+        got += len(d)
+        if x["e"] >= 0:
+            if got < len(written):
+                return ("error-mid-stream", "read %d (buffer %d) returned error %r after %d of the %d bytes that Write reported as "
+                        "written, before the peer closed" % (k, x["size"], x.get("err") or x["e"], got, len(written)))
+            break
+    if got < len(written):
+        return ("bytes-missing", "the reader obtained %d of the %d bytes that Write reported as written (%s)"
+                % (got, len(written), r.get("note") or "no error"))
+    return None
+
+
+def run_rp(ctx):
+    cases = gen_rp_cases(ctx)
+    res, out = yield ("go", "rp", cases)
+    if res is None or len(res) != len(cases):
+        driver_failed(ctx, "Go real-pair driver", out)
+        return
+    terms, tcase = [], []
+    for c, r in zip(cases, res):
+        dname = RP_DIR[c["dir"]]
+        note = r.get("note") or ""
+        if note.startswith("setup:") or note.startswith("driver panic"):
+            ctx.broken("driver", "real-pair driver: %s" % note, {"rp_cases": [c]})
+            continue
+        wmax, rbufs = r["wmax"], r["rbufs"]
+        rbuf = min(rbufs)
+        sizes = r["msgs"]
+        datas = [lcg_bytes(m["seed"], n) for m, n in zip(c["msgs"], sizes)]
+        writes = r.get("writes") or []
+        reads = r.get("reads") or []
+        nb = r.get("before_close", 0)
+        ctx.count((c["dir"], tuple(sizes), tuple((x["rel"], x["n"]) for x in c["rsizes"])), nontrivial=bool(reads),
+                  kind="rp/%s" % dname)
+        for n, w in zip(sizes, writes):
+            if n == wmax and w["n"] == n and w["e"] < 0:
+                ctx.count(("max", c["dir"]), nontrivial=False, kind="rp/%s/max-accepted" % dname)
+            if n == wmax - 1 and w["n"] == n:
+                ctx.count(("max-1", c["dir"]), nontrivial=False, kind="rp/max-1-accepted")
+            if n > wmax and w["n"] == 0 and w["e"] >= 0:
+                ctx.count(("over", c["dir"]), nontrivial=False, kind="rp/over-max-refused")
+        for sz in set(x["size"] for x in reads[:nb]):
+            k = ("read=1" if sz == 1 else "read=max-1" if sz == wmax - 1 else "read=max" if sz == wmax
+                 else "read>max" if sz > wmax else None)
+            if k:
+                ctx.count((k, c["dir"]), nontrivial=False, kind="rp/" + k)
+        v = rp_oracle(c, r, datas)
+        if v is not None:
+            cls, text = v
+            ctx.fail("realpair/%s/%s" % (dname, cls),
+                     "real Server/Client pair over net.Pipe (DTLS+SCTP, association maximum message size %d, receive buffers %s), "
+                     "%s, writes of %s bytes reported %s: %s"
+                     % (wmax, rbufs, dname, sizes, [w["n"] for w in writes], text),
+                     {"rp_cases": [c], "resolved": {"wmax": wmax, "rbufs": rbufs, "msgs": sizes},
+                      "observed": [(x["size"], len(x["d"]) // 2, x["e"], x.get("err", "")) for x in reads[max(0, nb - 6):nb + 2]]})
+        # the model comparison costs seconds per 64 KiB message (lists of bytes under vm_compute): every case with one
+        # maximal message, every other one of the longer ones; the direct oracle above judges all of them
+        heavy = sum(1 for n in sizes if n > 30000)
+        if nb <= RP_COQ_MAX_READS and len(writes) == len(sizes) and (heavy <= 1 or v is not None or len(tcase) % 2 == 0):
+            terms.append("CRp %s %s %s %s %s %s" % (
+                gN(wmax), gN(rbuf), glist(datas, bspec_in), glist([w["n"] for w in writes], gN),
+                glist([x["size"] for x in reads[:nb]], gN),
+                glist(reads[:nb], lambda x: "(%s, %s)" % (bspec_obs(bytes.fromhex(x["d"] or "")), gopt(None if x["e"] < 0 else x["e"], gN)))))
+            tcase.append((c, r))
+    try:
+        ctx.sample({"sub": "realpair", "case": cases[0], "wmax": res[0].get("wmax"), "rbufs": res[0].get("rbufs"),
+                    "writes": res[0].get("writes"), "reads": len(res[0].get("reads") or [])})
+    except (IndexError, KeyError):
+        pass
+    mm = yield ("coq", terms)
+    if mm:
+        ctx.cov["mismatches"] += len(mm)
+        c, r = tcase[mm[0]]
+        ctx.broken("correspondence", "real pair and the model instance pair_reads wmax rbuf (wmax, rbuf read from the constructed "
+                   "association and connection) disagree, or the instance violates wmax <= rbuf, on %d case(s); first: %s wmax=%s "
+                   "receive buffers=%s" % (len(mm), RP_DIR[c["dir"]], r.get("wmax"), r.get("rbufs")),
+                   {"rp_cases": [c], "resolved": {"wmax": r.get("wmax"), "rbufs": r.get("rbufs"), "msgs": r.get("msgs")}})
 
 
 # ------------------------------------------------------------------ (iii) flow control
@@ -1431,7 +1574,7 @@ def run(ctx):
     only = (ctx.replay or {}).get("only")
     if ctx.replay and not only:
         only = [k for k, v in REPLAY_KEYS.items() if replay_cases(ctx, v)] or ["none"]
-    subs = [("read", run_reads), ("fc", run_fc), ("mw", run_mw), ("mws", run_mws), ("mr", run_mr), ("mrs", run_mrs), ("hbq", run_hbq), ("win", run_win), ("hbb", run_hbb), ("reg", run_reg), ("mat", run_mat), ("wd", run_wd), ("lb", run_lb)]
+    subs = [("read", run_reads), ("rp", run_rp), ("fc", run_fc), ("mw", run_mw), ("mws", run_mws), ("mr", run_mr), ("mrs", run_mrs), ("hbq", run_hbq), ("win", run_win), ("hbb", run_hbb), ("reg", run_reg), ("mat", run_mat), ("wd", run_wd), ("lb", run_lb)]
     import time
     ctx.cov["timing_s"] = {}
     t0 = time.time()
@@ -1459,7 +1602,7 @@ def run(ctx):
     t0 = time.time()
     if want_go:
         files = dict(DRV)
-        for fn in ("read", "stream", "listener", "mw", "mr", "all"):
+        for fn in ("read", "rp", "stream", "listener", "mw", "mr", "all"):
             files["zz_verif_%s_test.go" % fn] = "c16/%s_driver_test.go" % fn
         batch = {req[1]: req[2] for req in want_go.values()}
         rc, out, res = ctx.go_inpkg(".", "pkg/dtls", files, "^TestVerifC16All$", batch, timeout=1500)
@@ -1482,7 +1625,16 @@ def run(ctx):
         for n in names:
             offs[n] = len(allterms)
             allterms += want_coq[n]
-        mm = ctx.coq_mismatches("all", HEADER, allterms, "chk", shard=max(60, len(allterms) // 14 + 1))
+        # the real-pair terms are few and expensive: spread them evenly over the shards
+        order = [i for i in range(len(allterms)) if not ("rp" in offs and offs["rp"] <= i < offs["rp"] + len(want_coq["rp"]))]
+        rpi = list(range(offs["rp"], offs["rp"] + len(want_coq["rp"]))) if "rp" in offs else []
+        if rpi:
+            step = max(1, len(order) // len(rpi))
+            for j, i in enumerate(rpi):
+                order.insert(min(len(order), j * (step + 1)), i)
+        mm = ctx.coq_mismatches("all", HEADER, [allterms[i] for i in order], "chk", shard=max(60, len(allterms) // 14 + 1))
+        if mm is not None:
+            mm = sorted(order[i] for i in mm)
         for n in names:
             if mm is None:
                 local = None
@@ -1496,4 +1648,6 @@ def run(ctx):
                            "lb/has-dup-refused", "wd/closed", "wd/open", "mat/from-secret-concrete-hkdf",
                            "hbq/closed+queue-timeout", "mw/k=1", "mw/k=2", "mw/k=4", "mw/k=8", "mw/has-contention",
                            "mw/has-held-back", "mw/has-stale-token", "mw/has-closed-while-blocked", "mw/has-limit",
-                           "mw/stress/never", "mw/stress/fast", "mr/has-contention", "mr/has-handover", "mr/stress"])
+                           "mw/stress/never", "mw/stress/fast", "mr/has-contention", "mr/has-handover", "mr/stress",
+                           "rp/dialer-to-acceptor/max-accepted", "rp/acceptor-to-dialer/max-accepted", "rp/max-1-accepted",
+                           "rp/over-max-refused", "rp/read=1", "rp/read=max-1", "rp/read=max", "rp/read>max"])
